@@ -9,6 +9,7 @@ RULE = ('pairs of random epsilon-NFAs (1-4 states each, alphabet subsets of {a,b
         'each of nfa_union, nfa_concatenation, nfa_repetition called with an explicit IdentifierGenerator(k), k in 0..3, and through the shared default generator after 0-3 earlier calls. '
         'Relation: valid NFA, new state not an operand state, language-equal (exact) to the proved model result, operands unchanged; structural layer: identical automaton. '
         'Non-trivial = both operands accept at least one word and have an epsilon or symbol transition; distinct by the operand texts.')
+RULE += ' Added after the seeded rounds: unusual state names (gen.NAME_POOLS).'
 CODES = {9: 'generated NFA invalid (harness)', 1: 'structure differs from the model, property-level relation holds'}
 for op, nme in [(0, 'nfa_union'), (1, 'nfa_concatenation'), (2, 'nfa_repetition')]:
     c = 10 * (op + 1)
@@ -31,7 +32,7 @@ def gen(rng, tier):
     quick = tier == 'quick'
     cases = []
     for _ in range(300 if quick else 4000):
-        pool = rng.choice([['q0', 'q1', 'q2', 'q3', 'q4', 'q5'], ['q1', 'q0', 'p0', 'p1', 'q2', 's'], ['s', 't', 'u', 'v', 'w', 'x']])
+        pool = rng.choice([['q0', 'q1', 'q2', 'q3', 'q4', 'q5'], ['q1', 'q0', 'p0', 'p1', 'q2', 's'], ['s', 't', 'u', 'v', 'w', 'x']] + G.NAME_POOLS)
         pool = list(pool)
         rng.shuffle(pool)
         k1, k2 = rng.randint(1, 3), rng.randint(1, 3)
